@@ -44,6 +44,12 @@ def verify_function(ct, label=None, params=None):
     if node is None:
         rep.status, rep.detail = "unbound", "function %s not found in current source" % ct.qualname
         return rep
+    import ast as _ast
+    for d in node.decorator_list:
+        dn = d.id if isinstance(d, _ast.Name) else (d.attr if isinstance(d, _ast.Attribute) else "?")
+        if dn not in ("staticmethod", "classmethod", "property", "abstractmethod"):
+            rep.status, rep.detail = "unsupported", "decorator @%s on %s is not modelled" % (dn, ct.qualname)
+            return rep
     params = params if params is not None else ct.params
     worklist = [[]]
     seen = set()
